@@ -40,6 +40,7 @@ REGEXES = [
 EXPRS += [r.strip() for r in REGEXES]
 
 DOCS = [
+    '@type ghost: int', 'Summary.\n\n@type ghost: C{int}\n@type x: str', ':type ghost: int', 'Doc.\n\n:type ghost: `C`\n:ivar real: r\n:type real: int', '@ivar declared: d\n@type undeclared: int',
     '概要\n==\n\ntext\n\n???\n---\n\nmore', 'Intro.\n\nПример\n======\n\n  - item', '!!!\n===\n', ':parameters: not a list\n:return: r', ':Parameters:\n  one\n\n  two\n',
     'plain words here', '', ' ', 'Summary line.\n\n    Details.\n', 'L{C} and C{x} I{y} B{z} U{http://u}', 'L{unclosed', '@param x: the x\n@type x: int\n@return: r\n@rtype: C',
     '@param nope: missing\n@raise ValueError: v\n@ivar i: iv\n@cvar c: cv\n@see: that\n@note: n', '@unknownfield: u', ':param x: the x\n:type x: int\n:returns: r\n:rtype: `C`',
